@@ -24,9 +24,14 @@ Mutations == {"valid", "empty", "truncate_1", "truncate_half", "truncate_last", 
               "count_huge", "count_plus_one", "elem_len_over", "elem_len_max", "short_header",
               "declared_size_huge",     \* a well-formed compressed frame whose header announces a huge content size
               "stray_1", "stray_3", "stray_7",   \* a valid frame, then the stream ends inside the next length marker
-              \* a valid frame with the complete length marker of a next frame right behind it, in the same read
+              \* a valid frame with the complete header of a next frame (length marker, type byte) right behind it, in the same read
               "next_len_2p30", "next_len_2p63", "next_len_max"}
 Sizes == {"tiny", "small", "medium"}
+\* What the decoding object has been through before the input of the case reaches it.  The decompressors are
+\* objects a subscriber / requestor / replier keeps for the life of its stream: one peer's damaged message
+\* must leave them as good as new for the next one ("fresh": a new object).
+Priors == {"fresh", "after_corrupt", "after_short"}
+Stateful(st) == st \in {"gzip", "zlib", "zstd", "lz4", "brotli", "sub_gzip_batch", "sub_zstd_batch", "sub_lz4", "sub_brotli_batch"}
 
 \* which mutations make sense for which stage
 Applies(st, mu) ==
@@ -39,10 +44,10 @@ Applies(st, mu) ==
             st \in {"frame", "frame_stream"}
       [] OTHER -> TRUE
 
-Cases == {[stage |-> st, mut |-> mu, size |-> sz] : st \in Stages, mu \in Mutations, sz \in Sizes}
-            \ {c \in [stage : Stages, mut : Mutations, size : Sizes] : ~Applies(c.stage, c.mut)}
+Cases == {c \in [stage : Stages, mut : Mutations, size : Sizes, prior : Priors] :
+              Applies(c.stage, c.mut) /\ (c.prior = "fresh" \/ Stateful(c.stage))}
 
-\* outcomes the specification allows
+\* outcomes the specification allows (no clause mentions c.prior: what came before does not matter)
 Allowed(c) ==
     CASE c.mut = "valid" -> {"ok"}
       [] c.mut \in {"count_huge", "elem_len_over", "elem_len_max", "short_header", "count_plus_one"} -> {"err"}
